@@ -110,15 +110,17 @@ std::string damage(std::string d, const Plan & plan, Outcome & out)
       // field-granular damage (the one operator that looks at the text structure): a whitespace-delimited token is
       // overwritten by a neighbouring token (misdirected write at field granularity), by an edge value, doubled or deleted
       std::vector<std::pair<size_t, size_t>> toks; // (begin, length)
+      std::vector<char> on_comment_line;           // per token (linear scan: the file may be one 700 kB line)
+      size_t line_start = 0;
       for (size_t i = 0; i < n;) {
-        while (i < n && isspace((unsigned char)d[i])) i++;
+        while (i < n && isspace((unsigned char)d[i])) { if (d[i] == '\n') line_start = i + 1; i++; }
         size_t b = i; while (i < n && !isspace((unsigned char)d[i])) i++;
-        if (i > b) toks.push_back({b, i - b});
+        if (i > b) { toks.push_back({b, i - b}); on_comment_line.push_back(d[line_start] == '#'); }
       }
       if (!toks.empty()) {
         // skip leading comment lines when counting "header" tokens: a header token is one of the first 12 on non-comment lines
         std::vector<size_t> data_toks;
-        for (size_t t = 0; t < toks.size(); t++) { size_t ls = d.rfind('\n', toks[t].first); ls = ls == std::string::npos ? 0 : ls + 1; if (d[ls] != '#') data_toks.push_back(t); }
+        for (size_t t = 0; t < toks.size(); t++) if (!on_comment_line[t]) data_toks.push_back(t);
         if (data_toks.empty()) for (size_t t = 0; t < toks.size(); t++) data_toks.push_back(t);
         size_t pick = (op.arg(2) && data_toks.size() > 12) ? (size_t)(op.arg(0) % 12) : (size_t)(op.arg(0) % (i64)data_toks.size());
         size_t ti = data_toks[pick];
